@@ -487,7 +487,15 @@ fn run_batch_mul(op: &Op) -> Vec<u8> {
     let n = op.a as usize;
     let s: Vec<Fr> = scalars(&mut rng, n);
     let base = G1::generator() * Fr::rand(&mut rng);
-    match op.c % 3 {
+    match op.c % 4 {
+        3 => {
+            // the explicit constructor with short scalars: few table rows, so a large pool has
+            // more threads than rows
+            let bits = (op.b as usize % 24).max(1);
+            let t = BatchMulPreprocessing::with_num_scalars_and_scalar_size(base, n.max(1), bits);
+            let small: Vec<Fr> = (0..n).map(|_| Fr::from(rng.u64() & ((1u64 << bits) - 1))).collect();
+            ser(&t.batch_mul(&small))
+        },
         0 => ser(&base.batch_mul(&s)),
         1 => {
             let t = BatchMulPreprocessing::new(base, (op.b as usize).max(1));
@@ -501,7 +509,7 @@ fn run_batch_mul(op: &Op) -> Vec<u8> {
     }
 }
 fn gen_batch_mul(rng: &mut Rng) -> (u64, u64, u64) {
-    (rng.below(120) as u64, *rng.pick(&[1u64, 2, 10, 100, 1000]), rng.below(3) as u64)
+    (rng.below(120) as u64, *rng.pick(&[1u64, 2, 3, 7, 9, 10, 16, 100, 1000]), rng.below(4) as u64)
 }
 
 fn run_normalize(op: &Op) -> Vec<u8> {
